@@ -14,14 +14,14 @@ from . import common
 PROP = "C11"
 LEVEL = "model_checking"
 RULE = (
-    "X-SEQ on the live compiler, two explorations over an alphabet of 19 compile requests chosen so that every piece of process-wide state named in the "
+    "X-SEQ on the live compiler, two explorations over an alphabet of 21 compile requests chosen so that every piece of process-wide state named in the "
     "property's anchors is written by one request and read by another (verbose / compact output of one source; a directive-carrying "
     "source in the canonical and in a non-canonical spelling; two sources with the same constexpr call text but different function bodies and one with an identical helper script; a "
     "source that prints a positive prefab hash and large integers, i.e. the lazily built hash set; device alias / reference-id / Stack "
     "sources that touch the module-level device singletons; sources that assign / read the named registers sp, ra, r7; a source that aborts with an error in the middle of code generation; a "
     "multi-module source).  (1) Every history of length <= 2 (quick) / <= 3 (thorough; at most 2 steps when a constexpr request is "
     "involved) runs in its own fork of a pristine parent process that has imported the package but never compiled.  (2) Long "
-    "histories: the de Bruijn sequence B(19, 3) (quick, 6859 steps) / B(19, 4) (thorough, 130321 steps), in which every window of 3 / 4 "
+    "histories: the de Bruijn sequence B(21, 3) (quick, 9261 steps) / B(21, 4) (thorough, 194481 steps), in which every window of 3 / 4 "
     "consecutive requests occurs, is run from 8 (quick) / 16 (thorough) different start offsets, each in one fork, with the options objects and source "
     "mappings reused throughout.  After EACH step of every history: "
     "result == the fresh-process oracle of that request (computed in 3 separate processes with different PYTHONHASHSEED, which must "
@@ -43,6 +43,9 @@ ALIAS2 = 'gs = GasSensor(d2, alias=True)\ndb.Setting = gs.Temperature\nst = Stac
 ABORT = "def f(a):\n    db.On = a\n" + "".join(f"v{i} = d{i % 6}.Setting\n" for i in range(20)) + "f(1)\nf(2)\n" + "".join(f"db.Setting = v{i}\n" for i in range(20))
 LIBMAIN = "from library import m\nm.setup()\nwhile True:\n    m.tick(d0.Setting)\n    m.tick(2)\n    yield_()\n"
 LIB = 'count = 0\ndef setup():\n    db.Mode = HASH("Lib")\ndef tick(k):\n    global count\n    count = count + k\n    db.Setting = count\n'
+
+
+CONSTNAME = 'NM = HASH("StorageTankNorth")\nTAG = STR("AB")\narr = [HASH("LongDeviceNameA"), HASH("LongDeviceNameB")]\nBatteries[NM].On = 1\ndb.Setting = TAG\ndb.Mode = arr[d0.Setting]\ndb.On = NM\n'
 
 
 def pos_prefab_hash():
@@ -78,6 +81,10 @@ def requests():
         "dev-var": ("x = d0\nx.Setting = 1\ndv = Device(d2, alias=True)\ndv.On = x.On\nst = Stack(d0)\nst[1] = 2\n", {}),
         "dev-plain": ("db.Setting = d0.Setting + d2.On\nd0.On = stack[1]\nd2.Setting = 3\n", {"compact": True}),
         "sp-read": ("d0.Setting = sp\nd1.Setting = r7\nra = pop()\n", {}),
+        # HASH / STR values that reach the output through constant propagation (bound to a name, element of a constant list): their
+        # spelling depends on the output mode, which is process-wide state set per compilation
+        "constname-verbose": (CONSTNAME, {}),
+        "constname-compact": (CONSTNAME, {"compact": True}),
     }
     return R
 
